@@ -38,6 +38,17 @@ fn dut_reuse_min_bytes() -> usize {
     *V
 }
 
+/// verif hook: one stderr line per cross-test cache event when
+/// `VERYL_VERIF_CACHE_TRACE=1` (observation only; no behaviour change).
+#[cfg(veryl_verif)]
+pub fn verif_cache_trace(what: std::fmt::Arguments) {
+    static ON: LazyLock<bool> =
+        LazyLock::new(|| std::env::var("VERYL_VERIF_CACHE_TRACE").as_deref() == Ok("1"));
+    if *ON {
+        eprintln!("[verif-cache] {what}");
+    }
+}
+
 // Each component (by `Arc` pointer) → the id of the FIRST test top that
 // converted it.  Appearing later under a DIFFERENT top means it's shared across
 // testbenches = the reusable DUT (a per-test wrapper gets a distinct `Arc` per
@@ -338,6 +349,11 @@ fn relocate_entry(
 ) -> ReusedStatements {
     let ff_delta = ff_start - entry.ref_ff_start;
     let comb_delta = comb_start - entry.ref_comb_start;
+    #[cfg(veryl_verif)]
+    verif_cache_trace(format_args!(
+        "stmt-hit ff_delta={ff_delta} comb_delta={comb_delta} ff_size={} comb_size={}",
+        entry.ff_size, entry.comb_size
+    ));
     let event_statements = entry
         .event_statements
         .iter()
@@ -454,6 +470,10 @@ pub fn try_reuse_or_claim(
                 cache = STMT_CV.wait(cache).unwrap();
             }
             None => {
+                #[cfg(veryl_verif)]
+                verif_cache_trace(format_args!(
+                    "stmt-miss ff_start={ff_start} comb_start={comb_start}"
+                ));
                 cache.insert(key, Slot::Computing);
                 return ReuseOutcome::Compute(ClaimGuard {
                     key,
